@@ -20,12 +20,15 @@ Tr == ndJsonDeserialize(IOEnv.TRACE)
 VARIABLES l, nbad
 
 StateInv(p, cap) == ObjInv(p.a, cap) /\ ObjInv(p.b, cap)
+\* the invariant holds after the call for every object, except an object that was already broken before the
+\* call and was not touched by it (that breach was reported by the event that caused it)
+InvKept(ev) == \A o \in {"a", "b"} : ObjInv(ev.post[o], ev.cap) \/ (~ObjInv(ev.pre[o], ev.cap) /\ ev.post[o] = ev.pre[o])
 IsFillFrom(s, from, fill) == \A i \in from..Len(s) : s[i] = fill
 
 JudgeQ(ev) ==
     IF ~QArgsOK(ev) \/ ev.h # ev.pre[ev.o].s THEN "harness-pre"
     ELSE IF "trap" \in DOMAIN ev THEN "trap"
-    ELSE IF ~StateInv(ev.post, ev.cap) THEN "inv"
+    ELSE IF ~InvKept(ev) THEN "inv"
     ELSE IF Abs(ev.post) # Abs(ev.pre) THEN "post"
     ELSE IF ~QConforms(ev) THEN "post"
     ELSE "ok"
@@ -41,7 +44,7 @@ JudgeM(ev) ==
     LET st == Abs(ev.pre) IN
     IF ~Pre(ev.op, ev.o, ev.x, st, ev.cap) THEN "harness-pre"
     ELSE IF "trap" \in DOMAIN ev THEN "trap"
-    ELSE IF ~StateInv(ev.post, ev.cap) \/ ("out" \in DOMAIN ev /\ ~ObjInv(ev.out, ev.cap)) THEN "inv"
+    ELSE IF ~InvKept(ev) \/ ("out" \in DOMAIN ev /\ ~ObjInv(ev.out, ev.cap)) THEN "inv"
     ELSE IF Relational(ev.op, ev.o, ev.x, st, ev.cap) THEN "ok"
     ELSE LET ef == Eff(ev.op, ev.o, ev.x, st, ev.cap) IN
          IF ~(/\ ev.ret = ef.ret
